@@ -3,6 +3,7 @@ INVARIANT TMedianIsWeightedMedian
 INVARIANT TCommonFactor
 INVARIANT TFloorAtPartial
 INVARIANT ObsPreds
+INVARIANT ObsWeights
 CONSTRAINT Finished
 CONSTRAINT Excluded
 POSTCONDITION PostOK
